@@ -881,6 +881,20 @@ impl<'a> ReplayEvents<'a> {
     }
 }
 
+impl<'a> ReplayEvents<'a> {
+    /// A recorded node (mapping key, merged value) must be consumed entirely by the value built
+    /// from it: events left over (e.g. the third element of a sequence read into a 2-tuple) are a
+    /// shape mismatch, never silently dropped.
+    fn expect_consumed(&mut self) -> Result<(), Error> {
+        match self.buf.get(self.idx) {
+            None => Ok(()),
+            Some(ev) => {
+                Err(Error::unexpected("end of recorded node").with_location(ev.location()))
+            }
+        }
+    }
+}
+
 impl<'a> Events<'a> for ReplayEvents<'a> {
     /// See [`Events::next`]. Replays and advances the internal index.
     fn next(&mut self) -> Result<Option<Ev<'a>>, Error> {
@@ -2096,13 +2110,15 @@ impl<'de, 'e> de::Deserializer<'de> for YamlDeserializer<'de, 'e> {
                     #[cfg(any(feature = "garde", feature = "validator"))]
                     garde: None,
                 };
-                seed.deserialize(de).map_err(|e| {
+                let value = seed.deserialize(de).map_err(|e| {
                     if e.location().is_none() {
                         e.with_location(location)
                     } else {
                         e
                     }
-                })
+                })?;
+                replay.expect_consumed()?;
+                Ok(value)
             }
 
             /// Push a batch of entries to the front of the pending queue in order.
@@ -2459,14 +2475,18 @@ impl<'de, 'e> de::Deserializer<'de> for YamlDeserializer<'de, 'e> {
                                 )
                             });
                             recorder.current = prev;
-                            return res;
+                            let value = res?;
+                            replay.expect_consumed()?;
+                            return Ok(value);
                         }
                     }
 
                     let de = YamlDeserializer::new(&mut replay, self.cfg);
-                    seed.deserialize(de).map_err(|e| {
+                    let value = seed.deserialize(de).map_err(|e| {
                         attach_alias_locations_if_missing(e, reference_location, defined_location)
-                    })
+                    })?;
+                    replay.expect_consumed()?;
+                    Ok(value)
                 } else {
                     // Live stream: get both locations for potential alias error reporting.
                     let defined_location = self
